@@ -3,7 +3,11 @@
 //
 // input    (10 fmt cipher keyseed #stream (chunk ...) nreads expect)   arbitrary stream; ReadHeadBody
 // observed ((dec) (unzip) (rres ...))                                   then UnmarshalPacket (as qnet)
-//            rres = (panicked errkind pkt|#data consumed wanted maxcap allocdelta)
+//            rres = (panicked errkind pkt|#data consumed wanted maxcap retcap allocflag)
+//              retcap    capacity of the payload buffer ReadHeadBody / ReadLenData handed back (-1: none)
+//              allocflag 1: the run-time's allocation counter (GC off, single goroutine) exceeded the
+//                        format's maximum plus slack on two consecutive measurements of this input;
+//                        2: on one only (inconclusive, counted in the histogram, never a verdict); 0: fine
 // input    (11 fmt cipher keyseed #frame mode lo hi)                   a valid frame damaged:
 // observed ((dec) (unzip) (panicked errkind) (res ...))                 mode 0 flips bit i, mode 1 cuts
 //            res = (panicked errkind consumed wanted maxcap)            after i bytes, lo <= i < hi
@@ -43,7 +47,7 @@ func dangerous(fmtc int, rest []byte) bool {
 
 type dres struct {
 	pn, kind                        int
-	consumed, wanted, maxcap, alloc int
+	consumed, wanted, maxcap, retcap int
 	pkt                             *packet.Packet
 	data                            []byte
 	head, body                      []byte
@@ -52,7 +56,7 @@ type dres struct {
 // one decode on the reader.  split: ReadHeadBody + UnmarshalPacket with the allocation of the
 // first measured; otherwise ReadPacket.
 func decode(fmtc int, r *ChunkReader, dec cipher.BlockCryptor, split bool) dres {
-	d := dres{alloc: -1}
+	d := dres{retcap: -1}
 	risky := dangerous(fmtc, r.Data[r.Pos:]) && !lowLenSafe
 	if risky && hugeSeen {
 		d.pn = 2
@@ -63,24 +67,16 @@ func decode(fmtc int, r *ChunkReader, dec cipher.BlockCryptor, split bool) dres 
 	var p bool
 	switch {
 	case fmtc == 3:
-		var m0, m1 runtime.MemStats
-		if split {
-			runtime.ReadMemStats(&m0)
-		}
 		p, _ = Catch(func() { d.data, err = codec.ReadLenData(r) })
-		if split {
-			runtime.ReadMemStats(&m1)
-			d.alloc = int(m1.TotalAlloc - m0.TotalAlloc)
+		if !p && err == nil {
+			d.retcap = cap(d.data)
 		}
 	case split:
 		enc := NewEncoder(fmtc, 0)
 		d.pkt = packet.Make()
-		var m0, m1 runtime.MemStats
-		runtime.ReadMemStats(&m0)
 		p, _ = Catch(func() { d.head, d.body, err = enc.ReadHeadBody(r) })
-		runtime.ReadMemStats(&m1)
-		d.alloc = int(m1.TotalAlloc - m0.TotalAlloc)
 		if !p && err == nil {
+			d.retcap = cap(d.body)
 			p, _ = Catch(func() { err = enc.UnmarshalPacket(d.head, d.body, dec, d.pkt) })
 		}
 	default:
@@ -103,6 +99,53 @@ func decode(fmtc int, r *ChunkReader, dec cipher.BlockCryptor, split bool) dres 
 		}
 	}
 	return d
+}
+
+// allocBound: what ReadHeadBody / ReadLenData may allocate at most, with generous slack for
+// size-class rounding and small objects
+func allocBound(fmtc int) uint64 {
+	max := uint64(65535)
+	if fmtc == 1 {
+		max = codec.V1MaxPayloadBytes
+	} else if fmtc == 2 {
+		max = codec.V2MaxPayloadBytes
+	}
+	return max + max/4 + 64<<10
+}
+
+// measureAlloc: bytes allocated (runtime.MemStats.TotalAlloc) by one ReadHeadBody / ReadLenData on a
+// private copy of the reader, garbage collector switched off, nothing else running
+func measureAlloc(fmtc int, r ChunkReader) uint64 {
+	old := debug.SetGCPercent(-1)
+	defer debug.SetGCPercent(old)
+	var m0, m1 runtime.MemStats
+	enc := NewEncoder(1, 0)
+	if fmtc == 2 {
+		enc = NewEncoder(2, 0)
+	}
+	runtime.ReadMemStats(&m0)
+	if fmtc == 3 {
+		Catch(func() { codec.ReadLenData(&r) })
+	} else {
+		Catch(func() { enc.ReadHeadBody(&r) })
+	}
+	runtime.ReadMemStats(&m1)
+	return m1.TotalAlloc - m0.TotalAlloc
+}
+
+var allocInconclusive, allocMeasured int
+
+// allocFlag: 1 only if two consecutive measurements of the same input are over the bound
+func allocFlag(fmtc int, r ChunkReader) int {
+	allocMeasured++
+	if measureAlloc(fmtc, r) <= allocBound(fmtc) {
+		return 0
+	}
+	if measureAlloc(fmtc, r) <= allocBound(fmtc) {
+		allocInconclusive++
+		return 2
+	}
+	return 1
 }
 
 func (d dres) short() Sx {
@@ -175,18 +218,11 @@ func runSingle(in Sx) Sx {
 	for i := 0; i < nreads; i++ {
 		before := nDec(rec)
 		start := r.Pos
-		// the allocation is measured twice (on a copy of the reader first) and the smaller
-		// value reported, so that an unrelated allocation of the run-time cannot be charged
-		// to the decoder
-		alloc2 := -1
+		flag := 0
 		if !dangerous(fmtc, r.Data[r.Pos:]) {
-			cp := *r
-			alloc2 = decode(fmtc, &cp, NewCipher(cidx, keyseed), true).alloc
+			flag = allocFlag(fmtc, *r)
 		}
 		d := decode(fmtc, r, rec.AsCryptor(), true)
-		if alloc2 >= 0 && alloc2 < d.alloc {
-			d.alloc = alloc2
-		}
 		feedUnzip(fmtc, d, data[start:], rec, before, unzipT)
 		var res Sx
 		if fmtc == 3 {
@@ -194,7 +230,7 @@ func runSingle(in Sx) Sx {
 		} else {
 			res = PacketSx(d.pkt, BodyToSx(d.pkt.Body_))
 		}
-		rres = append(rres, List(Int(int64(d.pn)), Int(int64(d.kind)), res, Int(int64(d.consumed)), Int(int64(d.wanted)), Int(int64(d.maxcap)), Int(int64(d.alloc))))
+		rres = append(rres, List(Int(int64(d.pn)), Int(int64(d.kind)), res, Int(int64(d.consumed)), Int(int64(d.wanted)), Int(int64(d.maxcap)), Int(int64(d.retcap)), Int(int64(flag))))
 	}
 	dt, ut := tables(rec, unzipT)
 	return List(dt, ut, ListOf(rres))
@@ -505,7 +541,19 @@ func gen(a Args, out *Out) {
 		} else {
 			ver := fmtc
 			typ, seq, node, cmd := byte(rng.Next()), uint16(rng.Next()), uint32(rng.Next()), uint32(rng.Next())
-			switch rng.Intn(10) {
+			switch rng.Intn(11) {
+			case 10: // marshalling flags on an EMPTY body (V2: nothing after the references)
+				fl := byte(rng.PickInt(1, 2, 3)) | byte(rng.PickInt(0, 0x10, 0x20))
+				nref := 0
+				if ver == 2 {
+					nref = rng.PickInt(0, 0, 1, 3)
+				}
+				data = craft(ver, typ, fl, byte(nref), seq, node, cmd, refsBytes(rng, nref), -1, false)
+				kind = "flags-empty-body"
+				// encrypted without a decryptor is undecryptable; an empty string is not decompressible
+				if (fl&2 != 0 && cidx == 0) || fl&1 != 0 {
+					expect = 1
+				}
 			case 0:
 				data = rng.Bytes(rng.Intn(80))
 			case 1: // plausible header, anything in flags and reference count
@@ -576,6 +624,8 @@ func gen(a Args, out *Out) {
 		}
 		emit(kind, List(Int(10), Int(int64(fmtc)), Int(int64(cidx)), Uint(keyseed), Bytes(data), genSizes(rng), Int(int64(nreads)), Int(int64(expect))))
 	}
+	out.CountN("alloc-measured(MemStats)", allocMeasured)
+	out.CountN("alloc-inconclusive(MemStats)", allocInconclusive)
 	if hugeSeen {
 		out.Note("memory guard: a V2 length field below the header size made ReadHeadBody allocate more than 64 MiB; later inputs of that class were not run")
 	}
